@@ -22,6 +22,7 @@ DefinedTypes == {"type_invoke", "type_result", "type_ping", "type_connectok", "t
 Accept(f, v) == f = "connect_valid" /\ Returns(v) /\ v # "return:lock"
 \* the validator is consulted for a decodable CONNECT payload only
 MustReason(f, v) == \/ f \in DefinedTypes
+                    \/ f = "connect_unknown_serializer"       \* (the refusal cannot be written in the peer's serializer; any other will do)
                     \/ f \in {"connect_valid", "connect_unknown_object"} /\ ~Returns(v) /\ v # "raise:ConnectionClosedError" /\ v \notin NoMessage
                     \/ f = "connect_unknown_object" /\ Returns(v)
 VARIABLES first, val, pipe, done
